@@ -19,7 +19,7 @@ func (g *vfGen) genC11() {
 	texts := []string{
 		"caf\u00e9 na\u00efve r\u00e9sum\u00e9", "\u0417\u0434\u0440\u0430\u0432\u0441\u0442\u0432\u0443\u0439\u0442\u0435 \u043c\u0438\u0440",
 		"\u65e5\u672c\u8a9e\u306e\u30c6\u30ad\u30b9\u30c8 abc", "emoji \U0001F600 \U0001F680 end", "plain ascii only\n\ttabbed\r\n",
-		"mixed \u00e9\u20ac\U00010348 x", "Wait\u0085next", "\u00a0nbsp",
+		"mixed \u00e9\u20ac\U00010348 x", "Wait\u0085next", "\u00a0nbsp", "a\ufffdb", "\ufffd", "repl \ufffd\ufffd end", "\uffff\ufffe x", "\ud7ff\ue000",
 	}
 	for _, t := range texts {
 		b := []byte(t)
@@ -70,7 +70,13 @@ func (g *vfGen) genC11() {
 		}
 	}
 	// random byte-class strings beyond the exhaustive length
-	classes := []byte{'a', ' ', '\n', 0x1B, 0x7F, 0x85, 0x90, 0xA0, 0xBF, 0xC2, 0xC3, 0xDF, 0xE0, 0xE2, 0xED, 0xEF, 0xF0, 0xF4, 0xF5, 0xFF, 0xC0, 0x80}
+	classes := []byte{'a', ' ', '\n', 0x1B, 0x7F, 0x85, 0x90, 0xA0, 0xBF, 0xBD, 0xBE, 0xC2, 0xC3, 0xDF, 0xE0, 0xE2, 0xED, 0xEF, 0xF0, 0xF4, 0xF5, 0xFF, 0xC0, 0x80}
+	// every three-byte sequence with lead EF (U+F000..U+FFFF incl. U+FFFD, U+FFFE, U+FFFF) in a little text
+	for c1 := 0x80; c1 <= 0xBF; c1++ {
+		for _, c2 := range []byte{0x80, 0xBB, 0xBC, 0xBD, 0xBE, 0xBF} {
+			g.emit(vfOp("cs", "plain", []byte{'a', 0xEF, byte(c1), c2, 'b'}))
+		}
+	}
 	for i := 0; i < g.pick(20000, 600000); i++ {
 		n := 1 + g.intn(10)
 		b := make([]byte, n)
